@@ -80,6 +80,17 @@ class MyConv2d(nn.Conv2d):
     pass
 
 
+class GainLinear(nn.Linear):
+    """A Linear subclass (leaf, hence eligible) with one more learnable parameter that K-FAC does not know about."""
+
+    def __init__(self, *a, **kw):
+        super().__init__(*a, **kw)
+        self.gain = nn.Parameter(torch.ones(self.out_features))
+
+    def forward(self, x):
+        return super().forward(x) * self.gain
+
+
 ACTS = {'relu': nn.ReLU, 'tanh': nn.Tanh, 'none': None, 'sigmoid': nn.Sigmoid}
 
 
@@ -104,7 +115,7 @@ def build_model(spec, dtype=torch.float32):
     for L in spec['layers']:
         t = L['t']
         if t == 'linear':
-            m = (MyLinear if L.get('sub') else nn.Linear)(L['in'], L['out'], bias=L['bias'])
+            m = (GainLinear if L.get('sub') == 'gain' else MyLinear if L.get('sub') else nn.Linear)(L['in'], L['out'], bias=L['bias'])
         elif t == 'conv':
             m = (MyConv2d if L.get('sub') else nn.Conv2d)(L['cin'], L['cout'], tuple(L['k']), stride=tuple(L['s']),
                                                           padding=tuple(L['p']), bias=L['bias'])
